@@ -7,7 +7,7 @@
 set -u
 SEED_GOFLAGS="${SEED_GOFLAGS:-}"
 ID="$1"; N="$2"; DEMODIR="$3"; RUNPAT="$4"; TIER="${5:-quick}"
-SRC="/tmp/seedwt/$ID/.seed/$N"
+SRC="${SEED_SRC:-/tmp/seedwt}/$ID/.seed/$N"; N="${SEED_OUTN:-$N}"
 [ -f "$SRC/patch.diff" ] || { echo "no $SRC/patch.diff"; exit 2; }
 V=/verif; OUT="$V/seeded/$ID-$N"; mkdir -p "$OUT"
 WT="/tmp/seedconfirm/$ID-$N"; rm -rf "$WT"; mkdir -p /tmp/seedconfirm
